@@ -18,6 +18,9 @@ RPM_POOL = [
 ]
 CELLS = [("Server", "x86_64"), ("Server", "s390x"), ("Client", "x86_64"), ("Server-optional", "x86_64")]
 MODULE_POOL = ["ruby:2.5:20180123:c0ffee", "perl:5.26", "dir/nodejs:10:2018"]
+# canonical UID (directory stripped) and (name, stream, version, context) of the pool entries
+MODULE_CANON = [("ruby:2.5:20180123:c0ffee", ("ruby", "2.5", "20180123", "c0ffee")), ("perl:5.26", ("perl", "5.26", "", "")),
+                ("nodejs:10:2018", ("nodejs", "10", "2018", ""))]
 CATS = ["binary", "debug", "source"]
 
 
@@ -83,11 +86,21 @@ def rpms_roundtrip(sym, history):
 def modules_roundtrip(sym, history):
     m = Modules()
     fill_compose(sym, m)
+    expected = {}          # the documented layout, built from the calls (independent of Modules.add)
     try:
         for step, (cell, mi, cat) in enumerate(history):
             variant, arch = CELLS[cell]
             rpms = [sym.str("rpm%d" % step, 4), "x-0:1-1.noarch"]          # a module added twice lists this RPM twice: the list is kept as given
-            m.add(variant, arch, MODULE_POOL[mi], sym.str("tag%d" % step, 4, minlen=1), sym.str("mdpath%d" % step, 4, minlen=1), CATS[cat], rpms)
+            tag = sym.str("tag%d" % step, 4, minlen=1)
+            mdpath = sym.str("mdpath%d" % step, 4, minlen=1)
+            sym.assume(sym.not_(mdpath.startswith("/")))
+            m.add(variant, arch, MODULE_POOL[mi], tag, mdpath, CATS[cat], rpms)
+            uid, (name, stream, version, context) = MODULE_CANON[mi]
+            e = expected.setdefault(variant, {}).setdefault(arch, {}).setdefault(uid, {"modulemd_path": {}, "rpms": []})
+            e["metadata"] = {"uid": uid, "name": name, "stream": stream, "version": version, "context": context, "koji_tag": tag}
+            e["modulemd_path"][CATS[cat]] = mdpath
+            e["rpms"] = e["rpms"] + list(rpms)
+        sym.check("built-mapping-follows-the-calls", m.modules == expected)
         before = clone(m.modules)
         text = m.dumps()
     except (ValueError, TypeError):
@@ -105,13 +118,19 @@ def modules_roundtrip(sym, history):
 def extra_roundtrip(sym, history):
     m = ExtraFiles()
     fill_compose(sym, m)
+    expected = {}          # the documented layout, built from the calls (independent of ExtraFiles.add)
     try:
         for step, (cell, two) in enumerate(history):
             variant, arch = CELLS[cell]
             cs = {"sha256": sym.str("sha%d" % step, 4)}
             if two:
                 cs["md5"] = sym.str("md5_%d" % step, 4)
-            m.add(variant, arch, sym.str("file%d" % step, 4, minlen=1), sym.int("size%d" % step), cs)
+            path = sym.str("file%d" % step, 4, minlen=1)
+            size = sym.int("size%d" % step)
+            sym.assume(sym.not_(path.startswith("/")))
+            m.add(variant, arch, path, size, cs)
+            expected.setdefault(variant, {}).setdefault(arch, []).append({"file": path, "size": size, "checksums": dict(cs)})
+        sym.check("built-mapping-follows-the-calls", m.extra_files == expected)
         before = clone(m.extra_files)
         text = m.dumps()
     except (ValueError, TypeError):
